@@ -14,8 +14,6 @@ Definition config_extra : list string := ["Errors"; "AddProfile"; "AddOption"; "
 
 Definition LIFECYCLE : string :=
   "written only by Start / Stop style calls, which the API does not allow to overlap with each other or with a live session of the same endpoint (schedule class S0 of the endpoint model: a call is issued only when the previous Stop has run to its end); the goroutines that read it are started after the write".
-Definition F29 : string :=
-  "FINDING F29: Stop closes the error channel without synchronising with error(), which library goroutines call: an error reported while or after Stop runs is a send on a closed channel".
 Definition SINGLE : string := "closed exactly once, by the cleanup of the write routine; every other access is a receive".
 
 Definition mu_cd := "ocppj.DefaultClientDispatcher.mutex".
@@ -27,15 +25,6 @@ Definition exemptions : list (string * aspect * exemption) := [
   ("ws.webSocket.connection", Ptr, Owner mu_ws ["ws.webSocket.writePump"; "ws.webSocket.writePump$local1"; "ws.webSocket.cleanup"]);
   ("ws.webSocket.doneC", Content, Pinned SINGLE [("ws.webSocket.cleanup", 4%Z, [])]);
 
-  ("ocpp1.6.chargePoint.errC", Ptr, Pinned F29 [
-      ("ocpp1.6.chargePoint.Stop", 0%Z, []); ("ocpp1.6.chargePoint.Stop", 4%Z, []); ("ocpp1.6.chargePoint.Stop", 1%Z, []);
-      ("ocpp1.6.chargePoint.error", 0%Z, []); ("ocpp1.6.chargePoint.error", 2%Z, [])]);
-  ("ocpp1.6.chargePoint.errC", Content, Pinned F29 [("ocpp1.6.chargePoint.Stop", 4%Z, []); ("ocpp1.6.chargePoint.error", 2%Z, [])]);
-  ("ws.client.errC", Content, Pinned F29 [("ws.client.Stop", 4%Z, []); ("ws.client.error", 2%Z, [])]);
-  ("ws.server.errC", Ptr, Pinned F29 [
-      ("ws.server.Stop", 0%Z, []); ("ws.server.Stop", 4%Z, []); ("ws.server.Stop", 1%Z, []);
-      ("ws.server.error", 0%Z, []); ("ws.server.error", 2%Z, [])]);
-  ("ws.server.errC", Content, Pinned F29 [("ws.server.Stop", 4%Z, []); ("ws.server.error", 2%Z, [])]);
 
   (* stopC is only touched by the application's own lifecycle calls since the repair F33: the callback routine gets
      the channel of its session as an argument *)
@@ -60,4 +49,17 @@ Definition exemptions : list (string * aspect * exemption) := [
   (* url: written by connect(), i.e. by Start or by the reconnection goroutine, which is also its only reader *)
   ("ws.client.url", Ptr, Pinned LIFECYCLE [("ws.client.connect", 1%Z, []); ("ws.client.handleReconnection", 0%Z, [])]);
   ("ws.server.httpServer", Ptr, Pinned LIFECYCLE [("ws.server.Start", 0%Z, []); ("ws.server.Start", 1%Z, []); ("ws.server.Stop", 0%Z, [])])
+].
+
+(** check-then-act sequences that must be one critical section (function, field, mutex); M4/Sections.v *)
+Definition atomic_sections : list (string * string * string) := [
+  (* C13: the duplicate check and the registration of a websocket id *)
+  ("ws.server.wsHandler", "ws.server.connections", "ws.server.connMutex");
+  (* C01: registration of a callback, the send attempt and the rollback when it is refused *)
+  ("internal/callbackqueue.CallbackQueue.TryQueue", "internal/callbackqueue.CallbackQueue.callbacks", "internal/callbackqueue.CallbackQueue.callbacksMutex");
+  (* C11: look-up and creation of a client's queue *)
+  ("ocppj.FIFOQueueMap.GetOrCreate", "ocppj.FIFOQueueMap.data", "ocppj.FIFOQueueMap.mutex");
+  (* C12: bounded push (capacity check and append), pop (emptiness check and removal) *)
+  ("ocppj.FIFOClientQueue.Push", "ocppj.FIFOClientQueue.elements", "ocppj.FIFOClientQueue.mutex");
+  ("ocppj.FIFOClientQueue.Pop", "ocppj.FIFOClientQueue.elements", "ocppj.FIFOClientQueue.mutex")
 ].
